@@ -131,7 +131,7 @@ func main() {
 			}
 		}
 		if *noEvidence {
-			code = finishNoEvidence(results, *prop)
+			code = finishNoEvidence(results, *prop, *verif)
 			return
 		}
 		code = Finish(results, *prop, *tier, seed, *verif, start, spec, extra)
@@ -153,7 +153,8 @@ func thoroughConfigs() []LoadConfig {
 	return out
 }
 
-func finishNoEvidence(results []*Result, prop string) int {
+func finishNoEvidence(results []*Result, prop string, verif string) int {
+	kf := loadKnown(verif + "/known_findings.json")
 	seen := map[string]bool{}
 	code := 0
 	for _, r := range results {
@@ -167,6 +168,18 @@ func finishNoEvidence(results []*Result, prop string) int {
 				continue
 			}
 			seen[o.Key()+o.Status.String()] = true
+			if o.Status == Violated {
+				known := false
+				for _, k := range kf.Known {
+					if k.Property == prop && k.Rule == o.Rule && k.Construct == o.Construct {
+						known = true
+					}
+				}
+				if known {
+					fmt.Printf("KNOWN-FINDING: property=%s %s / %s\n", prop, o.Rule, o.Construct)
+					continue
+				}
+			}
 			fmt.Printf("%s property=%s %s [%s] at %s: %s\n", o.Status, prop, o.Rule, o.Construct, o.Pos, o.Detail)
 			if o.Status == Violated {
 				code = 1
@@ -248,3 +261,14 @@ func doDump(p *Prog, what string) {
 }
 
 var _ = ssa.Function{}
+
+func init() {
+	dumpNoInline = map[string]bool{}
+	if s := os.Getenv("BKLCHECK_NOINLINE"); s != "" {
+		for _, n := range strings.Split(s, ",") {
+			dumpNoInline[n] = true
+		}
+	}
+}
+
+var dumpNoInline map[string]bool
